@@ -54,6 +54,9 @@ impl RateLimit {
 	pub fn new(raw_limits: &[(usize, String)]) -> Result<Self, Error> {
 		let mut limits = vec![];
 		for (nb, raw_duration) in raw_limits.iter() {
+			if *nb == 0 {
+				return Err("rate limit: the number of requests must be greater than zero".into());
+			}
 			let parsed_duration = parse_duration(raw_duration)?;
 			limits.push((*nb, parsed_duration));
 		}
@@ -91,7 +94,7 @@ impl RateLimit {
 		let nb_mili = match min_duration.as_secs() {
 			0 | 1 => crate::MIN_RATE_LIMIT_SLEEP_MILISEC,
 			n => {
-				let a = n * 200 / nb_req;
+				let a = n.saturating_mul(200) / nb_req;
 				let a = cmp::min(a, crate::MAX_RATE_LIMIT_SLEEP_MILISEC);
 				cmp::max(a, crate::MIN_RATE_LIMIT_SLEEP_MILISEC)
 			}
